@@ -10,7 +10,9 @@ _built = {}
 def build():
     """(re)build build/target/release/krp-replay from /repo's current sources; returns path or None"""
     if 'bin' in _built: return _built['bin']
-    crate = os.path.join(BUILD, 'replay_crate')
+    import hashlib
+    tag = 'main' if os.path.realpath(REPO) == '/repo' else hashlib.sha256(os.path.realpath(REPO).encode()).hexdigest()[:10]
+    crate = os.path.join(BUILD, 'replay_crate-' + tag)
     os.makedirs(crate, exist_ok=True)
     man = open(os.path.join(VERIF, 'replay', 'Cargo.toml.in')).read().replace('@REPO@', REPO)
     mp = os.path.join(crate, 'Cargo.toml')
@@ -34,11 +36,17 @@ def build():
         fcntl.flock(lk, fcntl.LOCK_EX)
         p = subprocess.run(['cargo', 'build', '--release', '--offline', '--target-dir', tgt, '-q'],
                            cwd=crate, env=env, capture_output=True, text=True)
+        if p.returncode == 0:
+            # the target dir is shared between trees: keep this tree's binary under its own name (still under the lock)
+            os.makedirs(os.path.join(BUILD, 'bin'), exist_ok=True)
+            mine = os.path.join(BUILD, 'bin', 'krp-replay-' + tag)
+            shutil.copy2(os.path.join(tgt, 'release', 'krp-replay'), mine + '.tmp%d' % os.getpid())
+            os.replace(mine + '.tmp%d' % os.getpid(), mine)
     if p.returncode != 0:
         _built['bin'] = None
         _built['err'] = p.stderr[-3000:]
         return None
-    _built['bin'] = os.path.join(tgt, 'release', 'krp-replay')
+    _built['bin'] = mine
     return _built['bin']
 
 def run_driver(driver, inp, timeout=120):
